@@ -37,7 +37,7 @@ RULE = ("pairwise covering array over potential kind (Potential from Atoms, Pote
         "case is checked against its own truncated simulation. Non-trivial: more than one exit plane and non-zero arrays. "
         "Distinct = distinct case dict.")
 BOUNDS = {"axes": _AXES, "atoms": "<= 5", "configurations": "2..3",
-          "rows": {"quick": "covering array + 15 random rows", "thorough": "3 covering arrays + 3 x 300 random rows"}}
+          "rows": {"quick": "covering array + 15 random rows", "thorough": "3 covering arrays + 3 x 150 random rows"}}
 EXHAUSTIVE = False
 ASSUMPTIONS = [
     "values compared with max-abs error <= 1e-5 * max|reference| (float32 pipeline)",
@@ -96,7 +96,7 @@ def cases(tier, seed):
     reps = 1 if tier == "quick" else 3
     i = 0
     for s in range(reps):
-        for row in covering(_AXES, seed=707 + 1000 * seed + s, extra_random=15 if tier == "quick" else 300):
+        for row in covering(_AXES, seed=707 + 1000 * seed + s, extra_random=15 if tier == "quick" else 150):
             yield _finish(row, seed, i)
             i += 1
 
